@@ -50,6 +50,9 @@ def make_lle(E, ms, tag='a', probe=None):
             if probe.get('second-call'):
                 raise _Decided(False)
             n = E.stub_calls['solve_lle_liquid_mol']
+            if probe.get('concrete-split'):
+                # a history call whose own result does not matter: fixed split, no forks
+                return C.array(E, [m * f for m, f in zip(mol, (0.25, 0.5, 0.75, 0.4, 0.6))])
             out = []
             for i, m in enumerate(mol):
                 x = E.real(f'lsplit{n}_{i}', lo=0, nice=(0.01, 0.9))
@@ -262,7 +265,24 @@ def g_top_chemical():
         ms = tmo.MultiStream(None, thermo=th, phases='lL')
         npres = E.pick([2, 3], 'n-chemicals')
         load(E, ms, FEEDS[npres][E.choice(2, 'feed')])
-        L = make_lle(E, ms)
+        probe = {}
+        L = make_lle(E, ms, probe=probe)
+        # optionally an earlier call on the same object while ANOTHER set of chemicals was present (the position of
+        # the top chemical among the chemicals in equilibrium differs between the two calls)
+        earlier = E.pick(['none', 'first-two', 'last-two'], 'earlier-call-with-other-chemicals')
+        if earlier != 'none':
+            fl0 = [1.0, 2.0, 0.0] if earlier == 'first-two' else [0.0, 2.0, 1.5]
+            if sum(1 for x in fl0 if x) == npres and all(bool(a) == bool(b) for a, b in zip(fl0, FEEDS[npres][0] + [0.0] * (3 - npres))):
+                raise core.PathAbort('same chemical set')
+            feed_now = [ms.imol.data.rows[ms.imol._phases.index('l')].dct.get(i, 0.0) for i in range(3)]
+            load(E, ms, fl0)
+            probe['concrete-split'] = True
+            try:
+                L(T=300.0, top_chemical=E.pick([c for c, x in zip(['Water', 'Ethanol', 'Octane'], fl0) if x], 'earlier-top'))
+            except (ZeroDivisionError, FloatingPointError):
+                raise core.PathAbort('degenerate earlier split')
+            probe['concrete-split'] = False
+            load(E, ms, feed_now)
         top = E.pick(['Water', 'Ethanol', 'Octane'][:npres], 'top_chemical')
         T = E.real('T', lo=285, hi=355, nice=(290, 350))
         try:
